@@ -155,6 +155,33 @@ func init() {
 				fmt.Sprintf("|fp=%d:%d:%d:%d", q20(fp.LLx), q20(fp.LLy), q20(fp.URx), q20(fp.URy))
 		}))
 	}
+	// D: GlyphBBox per glyph (real code); the driver answers with the smallest integer box that
+	// encloses all outline points
+	ops["metrics.dextent"] = func(f Fields) string {
+		return canonPanic(guard(func() string {
+			font := qFont(f["kind"], matrix.Matrix{0.0009765625, 0, 0, 0.0009765625, 0, 0}, f["g"], nil)
+			n := font.NumGlyphs()
+			gb := make([]string, n)
+			for i := 0; i < n; i++ {
+				gb[i] = mShowRect(font.GlyphBBox(glyph.ID(i)))
+			}
+			return strings.Join(gb, ";")
+		}))
+	}
+	// D: GlyphBBoxPDF per glyph (real code); the driver answers with the bounding box of the images
+	// of all corner / path points under the font matrix (scaled by 1000)
+	ops["metrics.dbboxpdf"] = func(f Fields) string {
+		return canonPanic(guard(func() string {
+			font := qFont(f["kind"], parseMatF(f["fm"]), f["g"], nil)
+			n := font.NumGlyphs()
+			gp := make([]string, n)
+			for i := 0; i < n; i++ {
+				r := font.Outlines.GlyphBBoxPDF(font.FontMatrix, glyph.ID(i))
+				gp[i] = fmt.Sprintf("%d:%d:%d:%d", q20(r.LLx), q20(r.LLy), q20(r.URx), q20(r.URy))
+			}
+			return strings.Join(gp, ";")
+		}))
+	}
 	// fractional CFF widths through IsFixedPitch, makeOS2 (average) and makeHmtx (funit.Int16(w))
 	ops["metrics.wcffq"] = func(f Fields) string {
 		return canonPanic(guard(func() string {
@@ -222,12 +249,27 @@ func dyadic(r *Rng, maxNum, logDenMax int) string {
 	return fmt.Sprintf("%d/%d", n, 1<<k)
 }
 
-func randMat(r *Rng) string {
+// randMat: dyadic font matrix; `boxes`: also left slants and rotations (used for the box queries
+// only: GlyphWidthPDF divides by fm[3], which must stay a power of two to be exact in float64)
+func randMat(r *Rng, boxes bool) string {
 	k := Pick(r, []int{10, 11, 10, 4, 12})
 	a := fmt.Sprintf("1/%d", 1<<k)
 	d := a
 	b, c, e, f := "0", "0", "0", "0"
-	switch r.Intn(6) {
+	sel := r.Intn(6)
+	if boxes {
+		sel = r.Intn(9)
+	}
+	switch sel {
+	case 6: // left slant: negative shear (a*c < 0)
+		c = fmt.Sprintf("%d/%d", -r.Range(50, 600), 1<<(k+10))
+	case 7: // rotation with scale [p q -q p] (dyadic), any quadrant
+		p, q := r.Range(-1000, 1000), r.Range(-1000, 1000)
+		a, b = fmt.Sprintf("%d/%d", p, 1<<(k+10)), fmt.Sprintf("%d/%d", q, 1<<(k+10))
+		c, d = fmt.Sprintf("%d/%d", -q, 1<<(k+10)), fmt.Sprintf("%d/%d", p, 1<<(k+10))
+	case 8: // b*d < 0
+		b = fmt.Sprintf("%d/%d", -r.Range(50, 600), 1<<(k+10))
+		e, f = dyadic(r, 64, 3), dyadic(r, 64, 3)
 	case 0: // shear (oblique font matrix)
 		c = fmt.Sprintf("%d/%d", r.Range(-400, 400), 1<<(k+10))
 	case 1: // general
@@ -284,7 +326,7 @@ func areaMetricsQ(c *Ctx) {
 			}
 			c.Stat("query_widths", "cff")
 			c.Stat("query_float", "exact (dyadic)")
-			c.Case(Verdict, "metrics.qwidths", fmt.Sprintf("kind=cff fm=%s w=%s", randMat(r), strings.Join(ws, ",")), true)
+			c.Case(Verdict, "metrics.qwidths", fmt.Sprintf("kind=cff fm=%s w=%s", randMat(r, false), strings.Join(ws, ",")), true)
 		}
 	}
 	// ---- glyph and font boxes in design and PDF units ----
@@ -304,13 +346,31 @@ func areaMetricsQ(c *Ctx) {
 				l, b := r.Range(-800, 800), r.Range(-800, 800)
 				w, h := r.Range(0, 6000), r.Range(0, 6000)
 				den := Pick(r, []int{1, 1, 2, 4})
+				if r.Chance(1, 3) { // negative, fractional extremes (odd numerators)
+					den = Pick(r, []int{2, 4})
+					l, b = -(2*r.Range(0, 400) + 1), -(2*r.Range(0, 400) + 1)
+					if r.Bool() {
+						w, h = 2*r.Range(0, 100), 2*r.Range(0, 100) // all points negative
+					}
+					c.Stat("query_cff_coords", "negative fractional minimum")
+				} else {
+					c.Stat("query_cff_coords", "other")
+				}
 				gl[j] = fmt.Sprintf("%d/%d:%d/%d:%d/%d:%d/%d", l, den, b, den, l+w, den, b+h, den)
 			}
 		}
-		fm := randMat(r)
+		fm := randMat(r, true)
 		c.Stat("query_bbox", kind)
 		c.Stat("query_float", "exact (dyadic)")
 		c.Case(Verdict, "metrics.qbbox", fmt.Sprintf("kind=%s fm=%s g=%s", kind, fm, strings.Join(gl, ";")), g >= 2)
+		// the properties themselves, judged on the real code against geometric definitions
+		c.Case(Direct, "metrics.dextent", fmt.Sprintf("kind=%s g=%s", kind, strings.Join(gl, ";")), g >= 2)
+		c.Case(Direct, "metrics.dbboxpdf", fmt.Sprintf("kind=%s fm=%s g=%s", kind, fm, strings.Join(gl, ";")), g >= 2)
+		if mv := parseMatF(fm); mv[0]*mv[2] < 0 || mv[1]*mv[3] < 0 {
+			c.Stat("query_matrix", "a*c<0 or b*d<0")
+		} else {
+			c.Stat("query_matrix", "other")
+		}
 	}
 	// ---- fractional CFF widths in the writer ----
 	for i := 0; i < n/8+8; i++ {
